@@ -14,6 +14,7 @@ from . import c17
 
 ID = "C10"
 LEVEL = "exploration"
+STUCK_S = 200  # a single case may legitimately take this long (seconds) before the runner calls it stuck
 WORKERS = 3
 RULE = (
     "Generated inputs: (a) arbitrary text (st.text incl. NUL/BOM/astral, latin-1 decoded binary), (b) keystroke model: "
